@@ -462,7 +462,7 @@ def _weekday(model, res, opaque, E):
                               'WEEKDAY with numbering type %d gives %s for a %s; expected %d' % (typ, got, ['Monday', 'Tuesday', 'Wednesday', 'Thursday', 'Friday', 'Saturday', 'Sunday'][w], want),
                               case={'type': typ, 'weekday': w}, func=f.name)
     res.soft_floor('WEEKDAY cells (weekday x type)', n, 21)
-    for typ in (0, 4, 11):
+    for typ in (0, 4, 11, -1, -2, -3, -4, 2.5):
         outs = _runs(model, 'WEEKDAY', lambda typ=typ: [Sym('datetime', 'd'), Const(typ)], opaque)
         ok = all(o.kind == 'return' and isinstance(o.value, Err) and o.value.name == E['#NUM!'] for o in outs)
         res.ob('R5', 'WEEKDAY', {'type': typ}, ok, H.describe(outs))
